@@ -44,6 +44,7 @@ func (c *Cfg) c() int {
 
 var errVerify = fmt.Errorf("harness: A > B")
 var errSource = fmt.Errorf("harness: source error")
+var errCause = fmt.Errorf("harness: custom cancellation cause")
 
 // the runner the package-global callbacks (Verify, VerifHook) talk to
 var curMu sync.Mutex
@@ -121,7 +122,7 @@ type runner struct {
 	evch   chan event
 	mail   map[int][]event
 
-	d        *dials.Dials[Cfg]
+	d        dialsAPI
 	ctx      context.Context
 	cancel   context.CancelFunc
 	serials  map[*Cfg]uint64
